@@ -49,19 +49,27 @@ class YowIqProtocolLayer(YowProtocolLayer):
             self._pingQueue = {}
         self._pingQueueLock.release()
 
-    def waitPong(self, id):
+    def waitPong(self, id, pingThread=None):
         self._pingQueueLock.acquire()
+        if pingThread is not None and pingThread is not self._pingThread:
+            # the keep-alive thread of an earlier connection: its pings do not count for this one
+            self._pingQueueLock.release()
+            return False
         self._pingQueue[id] = None
         pingQueueSize = len(self._pingQueue)
         self._pingQueueLock.release()
         self.__logger.debug("ping queue size: %d" % pingQueueSize)
         if pingQueueSize >= 2:
             self.getStack().broadcastEvent(YowLayerEvent(YowNetworkLayer.EVENT_STATE_DISCONNECT, reason = "Ping Timeout"))
+        return True
 
     @EventCallback(YowAuthenticationProtocolLayer.EVENT_AUTHED)
     def onAuthed(self, event):
         interval = self.getProp(self.__class__.PROP_PING_INTERVAL, 50)
-        if not self._pingThread and interval > 0:
+        if interval > 0:
+            # every connection gets its own keep-alive: a thread left over from an earlier connection (whose end may not
+            # have been announced up here yet, or which died on a failed write) must neither serve nor block this one
+            self.stop_thread()
             self._pingQueue = {}
             self._pingThread = YowPingThread(self, interval)
             self.__logger.debug("starting ping thread.")
@@ -103,7 +111,8 @@ class YowPingThread(Thread):
                     self.__logger.debug("%s - ping thread stopped" % self.name)
                     return
             ping = PingIqProtocolEntity()
-            self._layer.waitPong(ping.getId())
+            if not self._layer.waitPong(ping.getId(), self):
+                return
             if not self._stop:
                 self._layer.sendIq(ping)
 
